@@ -87,13 +87,13 @@ func c02b(c *Ctx) {
 	}
 	want := map[string]string{"==": "eq", "!=": "ne", "<": "lt", "<=": "le", ">": "gt", ">=": "ge"}
 	arms := map[string]bool{}
-	for _, ws := range writeSites(fn) {
+	for _, ws := range c.sitesOf(fn) {
 		if !ws.isFmt || !strings.HasPrefix(ws.format, "\tgoto_if_") {
 			continue
 		}
 		cc := strings.TrimSuffix(strings.TrimPrefix(ws.format, "\tgoto_if_"), " %s_%d\n")
 		var ops []string
-		for _, l := range c.mustLits(fn, ws.call.Block()) {
+		for _, l := range siteMust(ws) {
 			if strings.HasPrefix(l, `+($1.operatorExpression.Operator == "`) {
 				ops = append(ops, strings.TrimSuffix(strings.TrimPrefix(l, `+($1.operatorExpression.Operator == "`), `")`))
 			}
@@ -111,35 +111,50 @@ func c02b(c *Ctx) {
 			c.Bad("var-goto["+op+"]", c.W.FuncPos(fn), "no goto_if arm for operator "+op+": such a condition would render a compare without a branch")
 		}
 	}
-	// compare line
+	// compare line: "compare_var_to_value a, b" exactly for value(...) comparisons, "compare a, b"
+	// otherwise (whether spelled as two writes or as one write of a chosen mnemonic)
 	found := false
-	for _, ws := range writeSites(fn) {
-		if !ws.isFmt || ws.format != "\t%s %s, %s\n" || len(ws.args) != 3 {
+	var plainD, strictD dnf
+	nPlain, nStrict := 0, 0
+	strictLit := "($1.operatorExpression.ComparisonValueType == 1)"
+	for _, ws := range c.sitesOf(fn) {
+		if !ws.isFmt || len(ws.argT) != 2 || (ws.format != "\tcompare %s, %s\n" && ws.format != "\tcompare_var_to_value %s, %s\n") {
+			if ws.isFmt && ws.format == "\t%s %s, %s\n" {
+				c.Bad("var-compare/mnemonic", c.W.Pos(ws.call.Pos()), "the compare mnemonic is not one of two constants chosen by ComparisonValueType == StrictValueComparison")
+				found = true
+			}
 			continue
 		}
 		found = true
 		pos := c.W.Pos(ws.call.Pos())
-		ph, isPhi := ws.args[0].(*ssa.Phi)
-		okCmp := false
-		if isPhi && len(ph.Edges) == 2 {
-			var plain, strict bool
-			for i, e := range ph.Edges {
-				s, _ := strConst(e)
-				must := c.edgeMust(fn, ph.Block().Preds[i], ph.Block())
-				if s == "compare_var_to_value" && hasLit(must, "+($1.operatorExpression.ComparisonValueType == 1)") {
-					strict = true
-				}
-				if s == "compare" && !hasLit(must, "+($1.operatorExpression.ComparisonValueType == 1)") {
-					plain = true
-				}
-			}
-			okCmp = plain && strict
+		if strings.HasPrefix(ws.format, "\tcompare_var_to_value") {
+			nStrict++
+			strictD = orDNF(strictD, ws.cond)
+		} else {
+			nPlain++
+			plainD = orDNF(plainD, ws.cond)
 		}
-		c.Check(okCmp, "var-compare/mnemonic", pos, "compare_var_to_value exactly for value(...) comparisons, compare otherwise", "the compare mnemonic is not chosen by ComparisonValueType == StrictValueComparison")
-		c.Check(c.term(fn, ws.args[1]) == "$1.operatorExpression.Operand.Literal" && c.term(fn, ws.args[2]) == "$1.operatorExpression.ComparisonValue", "var-compare/operands", pos, "compare <operand>, <comparison value>", "compare line prints ("+c.term(fn, ws.args[1])+", "+c.term(fn, ws.args[2])+")")
-		for _, w2 := range writeSites(fn) {
-			if w2.call != ws.call && !instrDominates(ws.call.(ssa.Instruction), w2.call.(ssa.Instruction)) {
-				c.Bad("var-compare/first", pos, "the compare line does not precede the conditional goto")
+		c.Check(ws.argT[0] == "$1.operatorExpression.Operand.Literal" && ws.argT[1] == "$1.operatorExpression.ComparisonValue", fmt.Sprintf("var-compare/operands#%d", nPlain+nStrict), pos, "compare <operand>, <comparison value>", "compare line prints ("+ws.argT[0]+", "+ws.argT[1]+")")
+	}
+	if found {
+		okCmp := nPlain > 0 && nStrict > 0 && dnfEquiv(strictD, mkDNF([]string{"+" + strictLit})) && dnfEquiv(plainD, mkDNF([]string{"-" + strictLit}))
+		c.Check(okCmp, "var-compare/mnemonic", c.W.FuncPos(fn), "compare_var_to_value exactly for value(...) comparisons, compare otherwise", fmt.Sprintf("compare_var_to_value is written under [%s] and compare under [%s]; expected exactly ComparisonValueType == StrictValueComparison and its negation", strictD, plainD))
+		// a goto_if must be preceded by a compare line on every path
+		for _, w2 := range c.sitesOf(fn) {
+			if !strings.HasPrefix(w2.format, "\tgoto_if_") {
+				continue
+			}
+			isCmp := func(in ssa.Instruction) bool {
+				for _, ws := range c.sitesOf(fn) {
+					if strings.HasPrefix(ws.format, "\tcompare") && ssa.Instruction(ws.call.(ssa.Instruction)) == in {
+						return true
+					}
+				}
+				return false
+			}
+			_, skip := existsPath(pathQuery{from: point{fn.Blocks[0], 0}, target: func(in ssa.Instruction) bool { return in == w2.call.(ssa.Instruction) }, avoid: isCmp})
+			if skip {
+				c.Bad("var-compare/first", c.W.Pos(w2.call.Pos()), "a conditional goto can be written without a preceding compare line")
 			}
 		}
 	}
@@ -184,7 +199,7 @@ func c02c(c *Ctx) {
 			continue
 		}
 		var setW, unsetW *writeSite
-		ws := writeSites(fn)
+		ws := c.sitesOf(fn)
 		for i := range ws {
 			switch ws[i].format {
 			case s.set:
@@ -197,15 +212,15 @@ func c02c(c *Ctx) {
 			c.Bad(s.fn+"/forms", c.W.FuncPos(fn), "cannot find both the 'set' and the 'unset' branch lines")
 			continue
 		}
-		gotSet := c.PC(fn).At(setW.call.Block())
-		gotUnset := c.PC(fn).At(unsetW.call.Block())
+		gotSet := setW.cond
+		gotUnset := unsetW.cond
 		dom := map[string][]string{"$1.operatorExpression.Operator": {"==", "!="}, "$1.operatorExpression.ComparisonValue": {"TRUE", "FALSE"}}
 		c.Check(dnfEquivDomain(gotSet, setD, dom), s.fn+"/set-iff", c.W.Pos(setW.call.Pos()), "branch-if-set exactly for (== TRUE) or (!= FALSE)", "the 'set' branch is rendered under ["+gotSet.String()+"], expected (Operator == EQ && Value == TRUE) || (Operator == NEQ && Value == FALSE)")
 		// complement
 		all := orDNF(gotSet, gotUnset)
 		c.Check(dnfEquivDomain(all, mkDNF([]string{}), dom) && dnfEquivDomain(andDNF(gotSet, gotUnset), dnf{}, dom), s.fn+"/unset-otherwise", c.W.Pos(unsetW.call.Pos()), "branch-if-unset in every other case", "the 'unset' branch is rendered under ["+gotUnset.String()+"], which is not the complement of the 'set' condition")
 		if strings.Contains(s.set, "%s,") {
-			c.Check(c.term(fn, setW.args[0]) == "$1.operatorExpression.Operand.Literal" && c.term(fn, unsetW.args[0]) == "$1.operatorExpression.Operand.Literal", s.fn+"/operand", c.W.Pos(setW.call.Pos()), "the flag operand is printed", "flag comparison prints a different operand")
+			c.Check(setW.argT[0] == "$1.operatorExpression.Operand.Literal" && unsetW.argT[0] == "$1.operatorExpression.Operand.Literal", s.fn+"/operand", c.W.Pos(setW.call.Pos()), "the flag operand is printed", "flag comparison prints a different operand")
 		} else {
 			var chk *writeSite
 			for i := range ws {
@@ -213,7 +228,7 @@ func c02c(c *Ctx) {
 					chk = &ws[i]
 				}
 			}
-			ok := chk != nil && len(chk.args) == 1 && c.term(fn, chk.args[0]) == "$1.operatorExpression.Operand.Literal" && instrDominates(chk.call.(ssa.Instruction), setW.call.(ssa.Instruction)) && instrDominates(chk.call.(ssa.Instruction), unsetW.call.(ssa.Instruction))
+			ok := chk != nil && len(chk.argT) == 1 && chk.argT[0] == "$1.operatorExpression.Operand.Literal" && instrDominates(chk.call.(ssa.Instruction), setW.call.(ssa.Instruction)) && instrDominates(chk.call.(ssa.Instruction), unsetW.call.(ssa.Instruction))
 			c.Check(ok, s.fn+"/checktrainerflag-first", c.W.FuncPos(fn), "checktrainerflag <operand> precedes the branch", "checktrainerflag <operand> is not written before the goto_if")
 		}
 	}
